@@ -128,7 +128,11 @@ impl Record {
 
         let len = self.rlen()?;
 
-        start.checked_add(len - 1).ok_or_else(|| {
+        let offset = len.checked_sub(1).ok_or_else(|| {
+            io::Error::new(io::ErrorKind::InvalidData, "invalid reference length")
+        })?;
+
+        start.checked_add(offset).ok_or_else(|| {
             io::Error::new(
                 io::ErrorKind::InvalidData,
                 "calculation of the end position overflowed",
